@@ -254,24 +254,27 @@ CHECKS = {
 NOT_YET = "check not implemented yet in this revision (work in progress, see DESIGN.md section 3)"
 
 
-# workload families added after rounds 9 and 10 of independently seeded changes (DESIGN.md 7.9, 7.10)
+# workload families added after rounds 9 to 12 of independently seeded changes (DESIGN.md 7.9, 7.10)
 LATER = {
- "C01": "Also: thread churn under a low descriptor limit, a program run twice into one trace directory, a stream larger than 2 GiB.",
- "C02": "Also: 40-60 threads, threads sleeping for seconds between events, a stream larger than 2 GiB, consecutive events sharing one clock read.",
+ "C15": "Also: the missing CPU index and the distance of its replacement are drawn.",
+ "C06": "Also: several processes in several looms, thread ids restarting per loom, rank information on some looms, affinity-heavy histories.",
+ "C03": "Also: traces reached through symbolic links, host clocks hours apart brought together by the offset table.",
+ "C01": "Also: thread churn under a low descriptor limit, a program run twice into one trace directory (also on two file systems with equal inode numbers), a stream larger than 2 GiB, every call order of the event functions.",
+ "C02": "Also: 40-60 threads, threads sleeping for seconds between events, a stream larger than 2 GiB, consecutive events sharing one clock read, a previous job's trace in the directory, OVNI_TMPDIR naming the trace directory.",
  "C04": "Also: uncompleted words run with -a and with the kernel model required.",
- "C05": "Also: equal thread ids in several looms and in several processes of one loom.",
+ "C05": "Also: equal thread ids in several looms and in several processes of one loom, kernel context switches around silent stretches of running threads.",
  "C08": "Also: task events, moved threads, and the ovni model's own events while the thread is out of the CPU.",
- "C09": "Also: every script under partial writes without any kill, two ordered threads, failing writes in direct mode.",
- "C10": "Also: rename / sendfile / copy_file_range / link / writev / ftruncate in the fault tables, two-thread scripts with path-scoped faults.",
- "C11": "Also: thread churn (drivers/churndrv.c) on the TSan and the plain build, under a low descriptor limit, init/fini racing.",
- "C12": "Also: rank attributes removed from a whole process, trailing flush pairs after the end event, mixed library versions per thread.",
- "C13": "Also: loom_cpus shuffled or split over threads, rank attributes carried by a single thread of a process.",
+ "C09": "Also: every script under partial writes without any kill, two ordered threads, failing writes in direct mode, a 2 GiB stream and a relocation across two file systems with equal inode numbers without any fault.",
+ "C10": "Also: rename / sendfile / copy_file_range / link / writev / ftruncate in the fault tables, longer errno lists taken in turn over the occurrences of a call, two-thread scripts with path-scoped faults.",
+ "C11": "Also: thread churn (drivers/churndrv.c) on the TSan and the plain build, under a low descriptor limit, init/fini racing, automatic flushes of several threads in one run, thread ids congruent modulo powers of two.",
+ "C12": "Also: rank attributes removed from a whole process, trailing flush pairs after the end event, mixed library versions per thread, codes with the top bit set, the emulator's options (-l, -a) rotating over the corruptions.",
+ "C13": "Also: loom_cpus shuffled or split over threads, rank attributes carried by a single thread of a process, ranks placed cyclically / in reverse / at random, rank information on some looms only.",
  "C14": "Also: threaded checks, padded and hexadecimal forms, a stale ERANGE in errno.",
- "C16": "Also: regions before the first event and at the very end, clocks across 2^63, capped and failing pwrite calls (LD_PRELOAD shim).",
+ "C16": "Also: regions before the first event and at the very end, clocks across 2^63, capped and failing pwrite calls (LD_PRELOAD shim), lean streams of header-only events with dense far-reaching regions.",
  "C17": "Also: conflicting definitions among 3-4 threads, wide values, threads on the virtual CPU.",
- "C18": "Also: repeated and nested events, several processes, non-ASCII labels.",
- "C19": "Also: extreme clocks in sort windows, field-boundary mutants, remote-affinity insertions.",
- "C20": "Also: bare pauses judged at every instant, 1-3 looms.",
+ "C18": "Also: repeated and nested events, several processes, non-ASCII labels, physical CPU ids different from indices, threads with different requirement sets.",
+ "C19": "Also: extreme clocks in sort windows, field-boundary mutants, remote-affinity insertions, every metadata string grown to lengths around the powers of two.",
+ "C20": "Also: bare pauses judged at every instant, 1-3 looms, no record may rewrite a row with the value it holds.",
 }
 
 
